@@ -493,15 +493,34 @@ def recompute_id(folder, vectors=None):
 # scenario execution
 # ---------------------------------------------------------------------------
 
-def apply_layout(out_path, layout):
-    """zip_remove left `<id>` and `<id>.zip` (remove_files is off); reshape to the requested layout."""
+def apply_layout(out_path, layout, delete=()):
+    """zip_remove left `<id>` and `<id>.zip` (remove_files is off); reshape to the requested layout.
+    zip | folder | both (archive + identical folder) |
+    zip+partial: archive + a folder from which `delete` was removed (a kill during the rmtree after zipping or during
+                 restore()'s extraction) | zip+stale: archive + the folder as it was before the fit completed"""
     z = str(out_path) + ".zip"
+    if not os.path.exists(z):
+        return
     if layout == "zip":
-        if os.path.exists(z):
-            shutil.rmtree(out_path, ignore_errors=True)
+        shutil.rmtree(out_path, ignore_errors=True)
     elif layout == "folder":
-        if os.path.exists(z):
-            os.remove(z)
+        os.remove(z)
+    elif layout == "zip+partial":
+        for rel in delete:
+            t = os.path.join(str(out_path), rel)
+            if os.path.isdir(t):
+                shutil.rmtree(t, ignore_errors=True)
+            elif os.path.exists(t):
+                os.remove(t)
+    elif layout == "zip+stale":
+        for rel in (".completed", "files/samples.csv", "files/samples_info.json", "files/samples_summary.json", "model.results"):
+            t = os.path.join(str(out_path), rel)
+            if os.path.exists(t):
+                os.remove(t)
+        ip = os.path.join(str(out_path), "files", "info.json")
+        if os.path.exists(ip):
+            with open(ip, "w") as fh:
+                json.dump({"stale": "older run"}, fh)
     # "both": keep as is
 
 
@@ -610,7 +629,7 @@ def run_fit(f, session=None):
             rec["identifier"] = search.paths.identifier
             rec["output_path"] = str(search.paths.output_path)
             if session is None:
-                apply_layout(search.paths.output_path, f.get("layout", "both"))
+                apply_layout(search.paths.output_path, f.get("layout", "both"), f.get("delete", ()))
     except Interrupt:
         rec["interrupted"] = True
     except BaseException as e:  # noqa
@@ -663,6 +682,25 @@ def scenario(c, idx):
         if src and os.path.isdir(src):
             dst = os.path.join(out, cp["to"], os.path.basename(src))
             shutil.copytree(src, dst)
+    # what lies on disk before the load: the folders as they are (no extraction) and, separately, every archive
+    # extracted into an empty tree of its own
+    if c.get("disk_view"):
+        res["directory_raw"] = inspect_dir(out)
+        arch_root = os.path.join(root, "archives")
+        for d, _, files in os.walk(out):
+            for fn in files:
+                if fn.endswith(".zip"):
+                    dst = os.path.join(arch_root, os.path.relpath(d, out), fn[:-4])
+                    with zipfile.ZipFile(os.path.join(d, fn)) as z:
+                        z.extractall(dst)
+        res["directory_archives"] = inspect_dir(arch_root) if os.path.isdir(arch_root) else []
+        for view in ("directory_raw", "directory_archives"):
+            base = out if view == "directory_raw" else arch_root
+            for e in res[view]:
+                if e["metadata"]:
+                    vecs = [r["raw"] for r in e["samples"]["rows"]] if e.get("samples") else None
+                    e["recomputed"] = recompute_id(os.path.join(base, e["rel"]), vecs)
+        shutil.rmtree(arch_root, ignore_errors=True)
     # independent inspection must see unpacked folders: inspect a copy with archives unpacked
     insp_root = os.path.join(root, "inspect")
     shutil.copytree(out, insp_root)
